@@ -127,43 +127,45 @@ theorem statementOfMembers_wf (ms : List (Bytes × Json)) (s : Statement) (h : s
     s.mapsWf ∧ s.hasOneStar = false := by
   rw [statementOfMembers_eq] at h
   simp only [Option.bind_eq_some_iff] at h
-  obtain ⟨sid, _, ef, _, co, hco, effect, _, action, hact, resource, hres, hs⟩ := h
+  obtain ⟨sid, _, pr, hpr, ef, _, ac, hac, re, hre, co, hco, effect, _, action, haction, resource, hresource, hs⟩ := h
   simp only [Option.some.injEq] at hs
-  subst hs
+  subst hs haction hresource
   refine ⟨⟨?_, ?_⟩, ?_⟩
   · intro r hr
     simp only at hr
-    unfold principalRuleOf at hr
-    split at hr
-    · cases hr
-    · rename_i k v _
-      cases hp : principalOfJson v with
-      | none => simp [hp] at hr
+    subst hr
+    rcases (slot_none_some_iff principalMemberOf _ _).mp hpr with ⟨_, hh⟩ | ⟨kv, x, _, hx, hh⟩
+    · cases hh
+    · simp only [Option.some.injEq] at hh
+      subst hh
+      unfold principalMemberOf at hx
+      cases hp : principalOfJson kv.2 with
+      | none => simp [hp] at hx
       | some p =>
-        have := principalOfJson_wf v p hp
-        simp only [hp, Option.some.injEq] at hr
-        subst hr
+        have := principalOfJson_wf kv.2 p hp
+        simp only [hp, Option.map_some, Option.some.injEq] at hx
+        subst hx
         split <;> exact this
   · exact slot_getD_of optCondition (fun c => ∀ c', c = some c' → conditionWf c') (by intro _ h; cases h)
       (fun v x hx => optCondition_wf v x hx) _ co hco
   · rw [hasOneStar_eq]
     simp only [Bool.or_eq_false_iff]
     constructor
-    · unfold actionRuleOf at hact
-      split at hact
-      · cases hact
-      · rename_i k v _
-        simp only [Option.map_eq_some_iff] at hact
-        obtain ⟨w, hw, rfl⟩ := hact
-        have := woomOfJson_noOneStar v w hw
+    · rcases (slot_none_some_iff actionMemberOf _ _).mp hac with ⟨_, hh⟩ | ⟨kv, x, _, hx, hh⟩
+      · cases hh
+      · simp only [Option.some.injEq] at hh
+        subst hh
+        simp only [actionMemberOf, Option.map_eq_some_iff] at hx
+        obtain ⟨w, hw, rfl⟩ := hx
+        have := woomOfJson_noOneStar kv.2 w hw
         split <;> exact this
-    · unfold resourceRuleOf at hres
-      split at hres
-      · cases hres
-      · rename_i k v _
-        simp only [Option.map_eq_some_iff] at hres
-        obtain ⟨w, hw, rfl⟩ := hres
-        have := woomOfJson_noOneStar v w hw
+    · rcases (slot_none_some_iff resourceMemberOf _ _).mp hre with ⟨_, hh⟩ | ⟨kv, x, _, hx, hh⟩
+      · cases hh
+      · simp only [Option.some.injEq] at hh
+        subst hh
+        simp only [resourceMemberOf, Option.map_eq_some_iff] at hx
+        obtain ⟨w, hw, rfl⟩ := hx
+        have := woomOfJson_noOneStar kv.2 w hw
         split <;> exact this
 
 theorem statementOfJson_wf (x : Json) (s : Statement) (h : statementOfJson x = some s) :
@@ -239,13 +241,13 @@ theorem fromJson?_wf (j : Json) (p : Policy) (h : fromJson? j = some p) : p.maps
 
 /-! ## necessary conditions for acceptance -/
 
-theorem slot_all {α : Type} (f : Json → Option α) (vs : List Json) (r : Option α) (h : slot f none vs = some r) :
+theorem slot_all {α β : Type} (f : β → Option α) (vs : List β) (r : Option α) (h : slot f none vs = some r) :
     ∀ v ∈ vs, ∃ x, f v = some x := by
   rcases (slot_none_some_iff f vs r).mp h with ⟨rfl, _⟩ | ⟨v, x, rfl, hx, _⟩
   · simp
   · intro w hw; simp at hw; subst hw; exact ⟨x, hx⟩
 
-theorem slot_len {α : Type} (f : Json → Option α) (vs : List Json) (r : Option α) (h : slot f none vs = some r) :
+theorem slot_len {α β : Type} (f : β → Option α) (vs : List β) (r : Option α) (h : slot f none vs = some r) :
     vs.length ≤ 1 := by
   rcases (slot_none_some_iff f vs r).mp h with ⟨rfl, _⟩ | ⟨v, x, rfl, _, _⟩ <;> simp
 
@@ -261,33 +263,30 @@ theorem version_must (v : Json) (x : Option Version) (h : optVersion v = some x)
   | true => simp
   | false => simp [grammar_of_optVersion v x h hq]
 
-theorem rule_must {ρ : Type} (a b : Bytes) (mk : Bytes → WildcardOneOrMore Bytes → ρ) (ms : List (Bytes × Json))
-    (ha : a ≠ kSid ∧ a ≠ kEffect ∧ a ≠ kCondition) (hb : b ≠ kSid ∧ b ≠ kEffect ∧ b ≠ kCondition) (r : ρ)
-    (h : (match takeVariant a b (others ms) with
-          | none => none
-          | some (k, v) => (woomOfJson v).map fun w => mk k w) = some r) :
+theorem rule_must {ρ : Type} (a b : Bytes) (read : Bytes × Json → Option ρ)
+    (mk : Bytes → WildcardOneOrMore Bytes → ρ) (hread : ∀ kv, read kv = (woomOfJson kv.2).map (mk kv.1))
+    (ms : List (Bytes × Json)) (r : ρ) (h : slot read none (membersOf2 a b ms) = some (some r)) :
     (match (membersOf2 a b ms).head? with
       | some kv => strOrStrs kv.2
       | none => false) = true := by
-  rw [takeVariant_others a b ha hb] at h
-  cases hh : (membersOf2 a b ms).head? with
-  | none => simp [hh] at h
-  | some kv =>
-    rw [hh] at h
+  rcases (slot_none_some_iff read _ _).mp h with ⟨_, hh⟩ | ⟨kv, x, hm, hx, _⟩
+  · cases hh
+  · rw [hm]
+    rw [hread] at hx
     cases hw : woomOfJson kv.2 with
-    | none => simp [hw] at h
+    | none => simp [hw] at hx
     | some w => exact (woomOfJson_some_iff kv.2).mp ⟨w, hw⟩
 
 theorem statementOfMembers_must (ms : List (Bytes × Json)) (s : Statement) (h : statementOfMembers ms = some s) :
     stmtMust (.obj ms) = true := by
   rw [statementOfMembers_eq] at h
   simp only [Option.bind_eq_some_iff] at h
-  obtain ⟨sid, hsid, ef, hef, co, hco, effect, heffect, action, hact, resource, hres, _⟩ := h
-  subst heffect
-  rw [actionRuleOf_eq] at hact
-  rw [resourceRuleOf_eq] at hres
+  obtain ⟨sid, hsid, pr, hpr, ef, hef, ac, hac, re, hre, co, hco, effect, heffect, action, haction, resource,
+    hresource, _⟩ := h
+  subst heffect haction hresource
   simp only [stmtMust, Bool.and_eq_true, List.all_eq_true, decide_eq_true_eq]
-  refine ⟨⟨⟨⟨⟨⟨⟨⟨slot_len _ _ _ hsid, slot_len _ _ _ hef⟩, slot_len _ _ _ hco⟩, ?_⟩, ?_⟩, ?_⟩, ?_⟩, ?_⟩, ?_⟩
+  refine ⟨⟨⟨⟨⟨⟨⟨⟨⟨⟨⟨⟨slot_len _ _ _ hsid, slot_len _ _ _ hef⟩, slot_len _ _ _ hco⟩, ?_⟩, ?_⟩, ?_⟩, ?_⟩, ?_⟩, ?_⟩,
+    slot_len _ _ _ hpr⟩, slot_len _ _ _ hac⟩, slot_len _ _ _ hre⟩, ?_⟩
   · intro v hv
     obtain ⟨x, hx⟩ := slot_all _ _ _ hsid v hv
     simp [(optString_some_iff .sidShape v).mp ⟨x, hx⟩]
@@ -297,11 +296,18 @@ theorem statementOfMembers_must (ms : List (Bytes × Json)) (s : Statement) (h :
   · intro v hv
     obtain ⟨x, hx⟩ := slot_all _ _ _ hef v hv
     exact effect_must v x hx
-  · exact rule_must kAction kNotAction _ ms (by decide) (by decide) action hact
-  · exact rule_must kResource kNotResource _ ms (by decide) (by decide) resource hres
+  · exact rule_must kAction kNotAction actionMemberOf
+      (fun k w => if k = kAction then ActionRule.action w else .notAction w) (fun _ => rfl) ms action hac
+  · exact rule_must kResource kNotResource resourceMemberOf
+      (fun k w => if k = kResource then ResourceRule.resource w else .notResource w) (fun _ => rfl) ms resource hre
   · intro v hv
     obtain ⟨x, hx⟩ := slot_all _ _ _ hco v hv
     simp [(optCondition_some_iff v).mp ⟨x, hx⟩]
+  · intro kv hkv
+    obtain ⟨x, hx⟩ := slot_all _ _ _ hpr kv hkv
+    simp only [principalMemberOf, Option.map_eq_some_iff] at hx
+    obtain ⟨p, hp, _⟩ := hx
+    exact (principalOfJson_some_iff kv.2).mp ⟨p, hp⟩
 
 theorem statementOfJson_must (x : Json) (s : Statement) (h : statementOfJson x = some s) : stmtMust x = true := by
   cases x with
